@@ -673,6 +673,15 @@ func (db *DB) rollbackJournalSegment(ctx context.Context, r *JournalReader, dbFi
 			return fmt.Errorf("read frame(%d): %w", i, err)
 		}
 
+		// Skip records that cannot belong to the pre-transaction image: page
+		// zero does not exist and pages past the original database size were
+		// added by the transaction and are cut off by the final truncation.
+		// SQLite ignores such records too; a corrupt journal must not be able
+		// to write outside of the database's pages.
+		if pgno == 0 || pgno > r.commit {
+			continue
+		}
+
 		// Write data to the database file.
 		if err := db.writeDatabasePage(dbFile, pgno, data, true); err != nil {
 			return fmt.Errorf("write to database (pgno=%d): %w", pgno, err)
@@ -3680,6 +3689,13 @@ func (r *JournalReader) Next() (err error) {
 	// Only read sector and page size from first journal header.
 	if r.offset == 0 {
 		r.sectorSize = binary.BigEndian.Uint32(hdr[20:])
+
+		// An invalid sector size means the header is garbage. SQLite treats
+		// this as the end of the journal. A zero value would otherwise stall
+		// the segment loop or divide by zero when aligning the next header.
+		if r.sectorSize < 32 || r.sectorSize > 0x10000 || r.sectorSize&(r.sectorSize-1) != 0 {
+			return io.EOF
+		}
 
 		// Use page size from journal reader, if set to 0.
 		pageSize := binary.BigEndian.Uint32(hdr[24:])
